@@ -45,6 +45,9 @@ func init() {
 		"tl.crcid":            exCrcID,
 		"tl.hw.accountid":     exHwAccountID,
 		"tl.hw.blockidext":    exHwBlockIDExt,
+		"tl.hw.accountid.dec": exHwAccountIDDec,
+		"tl.hw.blockidext.dec": exHwBlockIDExtDec,
+		"tl.hw.int256.dec":    exHwInt256Dec,
 		"go.tl.hw":            goHandwritten,
 		"go.tl.hw.vmstack":    goVmStack,
 		"go.tl.toolong":       goTooLong,
@@ -249,6 +252,49 @@ func mkBlockIDExt(a []string) ton.BlockIDExt {
 func exHwBlockIDExt(a []string) string {
 	b, err := tl.Marshal(mkBlockIDExt(a))
 	return h.Outcome(h.Hex(b), err)
+}
+
+func hexDash(b []byte) string {
+	if len(b) == 0 {
+		return "-"
+	}
+	return h.Hex(b)
+}
+
+// decode sides of the hand-written codecs, on arbitrary bytes (encodings, truncations, extra bytes)
+func exHwAccountIDDec(a []string) string {
+	r := bytes.NewReader(unDash(a[0]))
+	var id ton.AccountID
+	if err := tl.Unmarshal(r, &id); err != nil {
+		return "err"
+	}
+	rest, _ := io.ReadAll(r)
+	return fmt.Sprintf("ok %d %s %s", uint32(id.Workchain), h.Hex(id.Address[:]), hexDash(rest))
+}
+
+func exHwBlockIDExtDec(a []string) string {
+	var id ton.BlockIDExt
+	if err := id.UnmarshalTL(unDash(a[0])); err != nil {
+		return "err"
+	}
+	return fmt.Sprintf("ok %d %d %d %s %s", uint32(id.Workchain), id.Shard, id.Seqno, h.Hex(id.RootHash[:]), h.Hex(id.FileHash[:]))
+}
+
+func exHwInt256Dec(a []string) string {
+	r := bytes.NewReader(unDash(a[0]))
+	var i tl.Int256
+	if err := tl.Unmarshal(r, &i); err != nil {
+		return "err"
+	}
+	rest, _ := io.ReadAll(r)
+	return fmt.Sprintf("ok %s %s", h.Hex(i[:]), hexDash(rest))
+}
+
+func unDash(s string) []byte {
+	if s == "-" {
+		return nil
+	}
+	return h.MustUnHex(s)
 }
 
 // goHandwritten: the hand-written codecs agree with the generated ones of the same declaration, and decode what they
@@ -512,5 +558,14 @@ func genC10(g *h.G) {
 		g.Emit("tl.hw.accountid", wc, addr)
 		g.Emit("tl.hw.blockidext", wc, sh, sq, root, file)
 		g.Emit("go.tl.hw", wc, addr, sh, sq, root, file)
+		// decode sides: lengths around 36 / 80 / 32 (truncated, exact, with extra bytes), and a few arbitrary lengths
+		n := []int{0, 3, 4, 31, 32, 33, 35, 36, 37, 40, 79, 80, 81, 100}[g.Rng.Intn(14)]
+		if g.Rng.Intn(4) == 0 {
+			n = g.Rng.Intn(120)
+		}
+		hx := hexDash(g.Bytes(n))
+		g.Emit("tl.hw.accountid.dec", hx)
+		g.Emit("tl.hw.blockidext.dec", hx)
+		g.Emit("tl.hw.int256.dec", hx)
 	}
 }
